@@ -81,7 +81,7 @@ func (r *Result) violate(v Violation) {
 	// keep at most 3 per (eco, kind) so that a broken order does not flood the report
 	n := 0
 	for _, o := range r.Violations {
-		if o.Eco == v.Eco && o.Kind == v.Kind {
+		if o.Eco == v.Eco && o.Kind == v.Kind && o.Finding == v.Finding {
 			n++
 		}
 	}
@@ -95,7 +95,7 @@ func (r *Result) violateKey(v Violation, key string) {
 	v.Property = r.Property
 	n := 0
 	for _, o := range r.Violations {
-		if o.Eco == v.Eco && o.Kind == v.Kind && o.Key == key {
+		if o.Eco == v.Eco && o.Kind == v.Kind && o.Key == key && o.Finding == v.Finding {
 			n++
 		}
 	}
